@@ -7,7 +7,7 @@ C14 (name) and C11 (glyf/loca).
 import SfntV.Model.FontFile
 import SfntV.Proofs.FontRoundTrip
 import SfntV.Props.C12
-import SfntV.Props.C14
+import SfntV.Proofs.NamesTable
 import SfntV.Props.C11
 
 namespace SfntV.FontFile
@@ -18,7 +18,91 @@ def timeInRange (t : Time) : Prop := -4611686018427387904 < t.sec ∧ t.sec < 46
 
 theorem time_bridge (t : Time) (h : timeInRange t) :
     ofGoTime (Metrics.decodeTime (Metrics.encodeTime (goTime t))) = decodeTime (encodeTime t) := by
-  sorry
+  obtain ⟨h1, h2⟩ := h
+  obtain ⟨sec, nsec⟩ := t
+  simp only at h1 h2
+  have hz : (goTime ⟨sec, nsec⟩).isZero = (Time.isZero ⟨sec, nsec⟩) := rfl
+  unfold Metrics.encodeTime Font.encodeTime
+  rw [hz]
+  cases hzz : Time.isZero ⟨sec, nsec⟩
+  · simp only [Bool.false_eq_true, if_false, goTime]
+    have hw : Metrics.wrap64 (sec - Gen.metricsZeroTime) = sec - epoch1904 := by
+      unfold Metrics.wrap64 Gen.metricsZeroTime epoch1904; omega
+    rw [hw]
+    unfold Metrics.decodeTime Font.decodeTime
+    by_cases he : sec - epoch1904 = 0
+    · simp only [he, if_true]; rfl
+    · simp only [he, if_false]
+      have hw2 : Metrics.wrap64 (Gen.metricsZeroTime + (sec - epoch1904)) = epoch1904 + (sec - epoch1904) := by
+        unfold Metrics.wrap64 Gen.metricsZeroTime epoch1904; omega
+      rw [hw2]; rfl
+  · simp only [if_true]
+    rfl
+
+/-! ### `head.Read` does not look at bytes 8..11 (checkSumAdjustment) -/
+
+theorem be32_length (n : Nat) : (be32 n).length = 4 := rfl
+
+theorem patchAdj_length (b : Bytes) (adj : UInt32) (hl : 12 ≤ b.length) :
+    (Header.patchAdj b adj).length = b.length := by
+  unfold Header.patchAdj
+  simp only [List.length_append, List.length_take, List.length_drop, be32_length]
+  omega
+
+theorem patchAdj_getD (b : Bytes) (adj : UInt32) (k : Nat) (hk : k < 8 ∨ 12 ≤ k) (hl : 12 ≤ b.length) :
+    (Header.patchAdj b adj).getD k 0 = b.getD k 0 := by
+  unfold Header.patchAdj
+  simp only [List.getD_eq_getElem?_getD]
+  congr 1
+  rcases hk with hk | hk
+  · rw [List.append_assoc, List.getElem?_append_left (by simp only [List.length_take]; omega),
+      List.getElem?_take_of_lt hk]
+  · rw [List.getElem?_append_right (by simp only [List.length_append, List.length_take, be32_length]; omega),
+      List.getElem?_drop]
+    congr 1
+    simp only [List.length_append, List.length_take, be32_length]
+    omega
+
+theorem patchAdj_rdU8 (b : Bytes) (adj : UInt32) (k : Nat) (hk : k < 8 ∨ 12 ≤ k) (hl : 12 ≤ b.length) :
+    Metrics.rdU8 (Header.patchAdj b adj) k = Metrics.rdU8 b k := by
+  unfold Metrics.rdU8; rw [patchAdj_getD b adj k hk hl]
+
+theorem patchAdj_rdU16 (b : Bytes) (adj : UInt32) (k : Nat) (hk : k + 1 < 8 ∨ 12 ≤ k) (hl : 12 ≤ b.length) :
+    Metrics.rdU16 (Header.patchAdj b adj) k = Metrics.rdU16 b k := by
+  unfold Metrics.rdU16
+  rw [patchAdj_rdU8 b adj k (by omega) hl, patchAdj_rdU8 b adj (k + 1) (by omega) hl]
+
+theorem patchAdj_rdI16 (b : Bytes) (adj : UInt32) (k : Nat) (hk : k + 1 < 8 ∨ 12 ≤ k) (hl : 12 ≤ b.length) :
+    Metrics.rdI16 (Header.patchAdj b adj) k = Metrics.rdI16 b k := by
+  unfold Metrics.rdI16; rw [patchAdj_rdU16 b adj k hk hl]
+
+theorem patchAdj_rdU32 (b : Bytes) (adj : UInt32) (k : Nat) (hk : k + 3 < 8 ∨ 12 ≤ k) (hl : 12 ≤ b.length) :
+    Metrics.rdU32 (Header.patchAdj b adj) k = Metrics.rdU32 b k := by
+  unfold Metrics.rdU32
+  rw [patchAdj_rdU16 b adj k (by omega) hl, patchAdj_rdU16 b adj (k + 2) (by omega) hl]
+
+theorem patchAdj_rdI64 (b : Bytes) (adj : UInt32) (k : Nat) (hk : k + 7 < 8 ∨ 12 ≤ k) (hl : 12 ≤ b.length) :
+    Metrics.rdI64 (Header.patchAdj b adj) k = Metrics.rdI64 b k := by
+  unfold Metrics.rdI64 Metrics.rdU64
+  rw [patchAdj_rdU32 b adj k (by omega) hl, patchAdj_rdU32 b adj (k + 4) (by omega) hl]
+
+/-- `head.Read` never looks at the checksum adjustment -/
+theorem decodeHead_patchAdj (b : Bytes) (adj : UInt32) (hl : 12 ≤ b.length) :
+    Metrics.decodeHead (Header.patchAdj b adj) = Metrics.decodeHead b := by
+  unfold Metrics.decodeHead
+  simp only [patchAdj_length b adj hl,
+    patchAdj_rdU32 b adj 0 (by omega) hl, patchAdj_rdU32 b adj 4 (by omega) hl,
+    patchAdj_rdU32 b adj 12 (by omega) hl,
+    patchAdj_rdU16 b adj 16 (by omega) hl, patchAdj_rdU16 b adj 18 (by omega) hl,
+    patchAdj_rdU16 b adj 44 (by omega) hl, patchAdj_rdU16 b adj 46 (by omega) hl,
+    patchAdj_rdI64 b adj 20 (by omega) hl, patchAdj_rdI64 b adj 28 (by omega) hl,
+    patchAdj_rdI16 b adj 36 (by omega) hl, patchAdj_rdI16 b adj 38 (by omega) hl,
+    patchAdj_rdI16 b adj 40 (by omega) hl, patchAdj_rdI16 b adj 42 (by omega) hl,
+    patchAdj_rdI16 b adj 50 (by omega) hl]
+
+theorem encodeHead_length (H : Metrics.Head) : (Metrics.encodeHead H).length = 54 := by
+  simp only [Metrics.encodeHead, Metrics.i64enc, Metrics.be64, Metrics.i16enc, be32, be16,
+    List.length_append, List.length_cons, List.length_nil]
 
 /-- head: the table as stored in the file (checksum adjustment patched in by `header.Write`)
 decodes to `codecHead` of the record, and keeps the loca format -/
@@ -26,7 +110,10 @@ theorem head_table (h : HeadRec) (bbox : Metrics.Rect) (loca : Int) (adj : UInt3
     (d : Metrics.HeadDom (headOf h bbox loca)) (hc : timeInRange h.created) (hm : timeInRange h.modified) :
     ∃ H, Metrics.decodeHead (Header.patchAdj (Metrics.encodeHead (headOf h bbox loca)) adj) = .ok H ∧
       recOfHead H = codecHead h ∧ H.locaFormat = loca := by
-  sorry
+  rw [decodeHead_patchAdj _ adj (by rw [encodeHead_length]; omega)]
+  refine ⟨_, SfntV.Props.C12.C12_head_roundtrip (headOf h bbox loca) d, ?_, rfl⟩
+  unfold recOfHead codecHead
+  simp only [headOf, time_bridge h.created hc, time_bridge h.modified hm]
 
 /-- the `os2.Info` as `os2.Read` returns it: the empty vendor id comes back as four spaces -/
 def os2Read (o : Os2Rec) (x : Os2Extra) : Metrics.Os2 := { os2Of o x with vendor := [32, 32, 32, 32] }
@@ -35,19 +122,45 @@ def os2Read (o : Os2Rec) (x : Os2Extra) : Metrics.Os2 := { os2Of o x with vendor
 theorem os2_table (o : Os2Rec) (x : Os2Extra) (d : Metrics.Os2Dom (os2Read o x)) :
     Metrics.decodeOs2 (Metrics.encodeOs2 (os2Of o x)) = .ok (os2Read o x) ∧
     recOfOs2 (os2Read o x) = codecOs2 o := by
-  sorry
+  have henc : Metrics.encodeOs2 (os2Of o x) = Metrics.encodeOs2 (os2Read o x) := rfl
+  rw [henc]
+  refine ⟨SfntV.Props.C12.C12_os2_roundtrip _ d, ?_⟩
+  have hreg := d.reg
+  have hcap := d.cap0
+  have hxh := d.xh0
+  have hperm := d.perm
+  simp only [os2Read, os2Of] at hreg hcap hxh hperm
+  have hfix : codecOs2 o = o := by
+    obtain ⟨wt, wd, bold, ital, reg, obl, asc, des, gap, cap, xh, avg, fc, cpr, perm⟩ := o
+    simp only at hreg hcap hxh hperm
+    unfold codecOs2
+    simp only [Os2Rec.mk.injEq, true_and]
+    refine ⟨?_, ?_, ?_, ?_, ?_⟩
+    · cases reg <;> cases bold <;> simp_all
+    · cases reg <;> cases ital <;> simp_all
+    · split <;> omega
+    · split <;> omega
+    · split <;> omega
+  rw [hfix]; rfl
 
 /-- post (version 3.0: no glyph names) -/
 theorem post_table (p : PostRec) (hp : isInt16 p.underlinePosition) (ht : isInt16 p.underlineThickness) :
     Metrics.decodePost (Metrics.encodePost 0x00030000 (postHdrOf p)) = .ok (0x00030000, postHdrOf p) ∧
     recOfPostHdr (postHdrOf p) = codecPost p := by
-  sorry
+  refine ⟨SfntV.Props.C12.C12_post_header_roundtrip 0x00030000 (postHdrOf p) (Or.inr (Or.inl rfl)) ?_ hp ht, rfl⟩
+  have := toInt32_range p.italicAngle.round16
+  simp only [postHdrOf]
+  omega
 
 /-- maxp (TrueType form) -/
 theorem maxp_table (n : Nat) (ttf : List Nat) (h1 : 1 ≤ n) (h2 : n < 65536)
     (ht : ttf.length = 13 ∧ ∀ v ∈ ttf, v < 65536) :
-    ∃ b, Metrics.encodeMaxp ⟨n, some ttf⟩ = .ok b ∧ Metrics.decodeMaxp b = .ok ⟨n, some ttf⟩ := by
-  sorry
+    ∃ b, Metrics.encodeMaxp ⟨n, some ttf⟩ = .ok b ∧ Metrics.decodeMaxp b = .ok ⟨n, some ttf⟩ :=
+  SfntV.Props.C12.C12_maxp_roundtrip ⟨n, some ttf⟩ ⟨by simp only; omega, by simp only; omega⟩
+    (fun vs hvs => by
+      simp only [Option.some.injEq] at hvs
+      subst hvs
+      exact ht)
 
 /-- hhea + hmtx as makeHmtx builds them -/
 theorem hmtx_table (ws : List Int) (es : List Metrics.Rect) (asc desc gap rise run : Int)
@@ -57,16 +170,191 @@ theorem hmtx_table (ws : List Int) (es : List Metrics.Rect) (asc desc gap rise r
     ∃ hhea hmtx d, Metrics.encode ⟨some ws, some es, none, asc, desc, gap, 0⟩ rise run = .ok (hhea, some hmtx) ∧
       Metrics.decode hhea (some hmtx) = .ok d ∧ d.widths = ws ∧ d.ascent = asc ∧ d.descent = desc ∧
       d.lineGap = gap ∧ d.rise = rise ∧ d.run = run := by
-  sorry
+  obtain ⟨hhea, hmtx, d, h1, h2, h3, h4, h5, h6, _, _, h9, h10⟩ :=
+    SfntV.Props.C12.C12_hmtx_widths_roundtrip ws es asc desc gap rise run hne hn hlen hw he ha hd hg hr hu
+  exact ⟨hhea, hmtx, d, h1, h2, h3, h4, h5, h6, h9, h10⟩
+
+/-! ### name: the encoder emits bytes -/
+
+theorem bytesToNats_natsToBytes (l : List Nat) (h : ∀ x ∈ l, x < 256) : bytesToNats (natsToBytes l) = l := by
+  induction l with
+  | nil => rfl
+  | cons a rest ih =>
+    have ha : a < 256 := h a List.mem_cons_self
+    have ih' := ih (fun x hx => h x (List.mem_cons_of_mem _ hx))
+    simp only [bytesToNats, natsToBytes, List.map_cons, List.map_map] at ih' ⊢
+    rw [ih']
+    congr 1
+    simp only [UInt8.toNat_ofNat']
+    omega
+
+theorem u16_lt (n : Nat) : ∀ x ∈ Names.u16 n, x < 256 := by
+  intro x hx
+  simp only [Names.u16, List.mem_cons, List.not_mem_nil, or_false] at hx
+  omega
+
+theorem macEncodeOne_lt (r : Nat) : Names.macEncodeOne r < 256 := by
+  unfold Names.macEncodeOne Names.macEncodeOneWith
+  split
+  · omega
+  · split
+    · next c hc =>
+      have hall := List.all_eq_true.mp Names.mac_enc_entries _ (Names.assocGet_mem hc)
+      simp only [Bool.and_eq_true, decide_eq_true_eq] at hall
+      exact hall.2
+    · decide
+
+theorem macEncode_lt_all (rr : List Nat) : ∀ c ∈ Names.macEncode rr, c < 256 := by
+  intro c hc
+  simp only [Names.macEncode, Names.macEncodeWith, List.mem_map] at hc
+  obtain ⟨r, _, rfl⟩ := hc
+  exact macEncodeOne_lt r
+
+theorem utf16Encode_lt_all (rr : List Nat) : ∀ c ∈ Names.utf16Encode rr, c < 256 := by
+  intro c hc
+  simp only [Names.utf16Encode, List.mem_flatMap, List.mem_cons, List.not_mem_nil, or_false] at hc
+  obtain ⟨u, _, hu⟩ := hc
+  omega
+
+theorem add_data_lt (b : Names.Builder) (s : List Nat) (hb : ∀ x ∈ b.data, x < 256) (hs : ∀ x ∈ s, x < 256) :
+    ∀ x ∈ (b.add s).1.data, x < 256 := by
+  unfold Names.Builder.add
+  split
+  · exact hb
+  · intro x hx
+    simp only [List.mem_append] at hx
+    rcases hx with hx | hx
+    · exact hb x hx
+    · exact hs x hx
+
+theorem addTable_data_lt (pid eid lang : Nat) (enc : List Nat → List Nat) (henc : ∀ v, ∀ x ∈ enc v, x < 256)
+    (kvs : List (Nat × List Nat)) (b : Names.Builder) (hb : ∀ x ∈ b.data, x < 256) :
+    ∀ x ∈ (Names.addTable pid eid lang enc kvs b).1.data, x < 256 := by
+  induction kvs generalizing b with
+  | nil => exact hb
+  | cons kv rest ih =>
+    obtain ⟨nid, val⟩ := kv
+    simp only [Names.addTable]
+    exact ih _ (add_data_lt b (enc val) hb (henc val))
+
+theorem addLangs_data_lt (pid eid : Nat) (enc : List Nat → List Nat) (henc : ∀ v, ∀ x ∈ enc v, x < 256)
+    (info : List Names.Entry) (order : List (Nat × String)) (b : Names.Builder) (hb : ∀ x ∈ b.data, x < 256) :
+    ∀ x ∈ (Names.addLangs pid eid enc info order b).1.data, x < 256 := by
+  induction order generalizing b with
+  | nil => exact hb
+  | cons lt rest ih =>
+    obtain ⟨lang, tag⟩ := lt
+    simp only [Names.addLangs]
+    exact ih _ (addTable_data_lt pid eid lang enc henc _ b hb)
+
+theorem recBytes_lt (r : Names.Rec) : ∀ x ∈ Names.recBytes r, x < 256 := by
+  intro x hx
+  simp only [Names.recBytes, List.mem_append] at hx
+  rcases hx with hx | hx | hx | hx | hx | hx <;> exact u16_lt _ x hx
+
+/-- `(*Info).Encode` produces bytes, for every `name.Info` -/
+theorem nameEncodeWith_lt (mo wo : List (Nat × String)) (info : List Names.Entry) (eid : Nat) :
+    ∀ x ∈ Names.nameEncodeWith mo wo info eid, x < 256 := by
+  intro x hx
+  simp only [Names.nameEncodeWith, List.mem_append, List.mem_flatMap] at hx
+  rcases hx with hx | hx | hx | hx | hx
+  · simp only [List.mem_cons, List.not_mem_nil, or_false] at hx; omega
+  · exact u16_lt _ x hx
+  · exact u16_lt _ x hx
+  · obtain ⟨r, _, hr⟩ := hx
+    exact recBytes_lt r x hr
+  · unfold Names.nameBuild at hx
+    exact addLangs_data_lt 3 eid _ utf16Encode_lt_all info wo _
+      (addLangs_data_lt 1 0 _ macEncode_lt_all info mo _ (by intro y hy; cases hy)) x hx
+
+
+/-! ### name: the view of `nameEntries` -/
+
+/-- the `name.Info` of makeName over an arbitrary list of (name id, string) -/
+def entriesOf (l : List (Nat × Str)) : List Names.Entry :=
+  ((l.filter fun p => !p.2.isEmpty).map fun p => ⟨1, "en", p.1, p.2.map Char.toNat⟩) ++
+  ((l.filter fun p => !p.2.isEmpty).map fun p => ⟨3, "en-US", p.1, p.2.map Char.toNat⟩)
+
+theorem nameEntries_eq (n : NameRec) : nameEntries n = entriesOf (nameFields n) := rfl
+
+theorem key_unique (l : List (Nat × Str)) (hn : (l.map (·.1)).Nodup) (i : Nat) (s s' : Str)
+    (h : (i, s) ∈ l) (h' : (i, s') ∈ l) : s = s' := by
+  induction l with
+  | nil => cases h
+  | cons q rest ih =>
+    simp only [List.map_cons, List.nodup_cons, List.mem_map, not_exists, not_and] at hn
+    simp only [List.mem_cons] at h h'
+    rcases h with rfl | h <;> rcases h' with h' | h'
+    · exact (Prod.mk.inj h').2.symm
+    · exact absurd rfl (hn.1 (i, s') h')
+    · subst h'; exact absurd rfl (hn.1 (i, s) h)
+    · exact ih hn.2 h h'
+
+theorem getVal_entriesOf (l : List (Nat × Str)) (hn : (l.map (·.1)).Nodup) (i : Nat) (s : Str)
+    (h : (i, s) ∈ l) : Names.getVal (entriesOf l) 3 "en-US" i = s.map Char.toNat := by
+  apply Names.getVal_of_all
+  · intro x hx hp _ hi
+    simp only [entriesOf, List.mem_append, List.mem_map, List.mem_filter] at hx
+    rcases hx with ⟨q, _, rfl⟩ | ⟨q, ⟨hq, _⟩, rfl⟩
+    · simp only at hp; omega
+    · simp only at hi ⊢
+      obtain ⟨qi, qs⟩ := q
+      simp only at hi
+      subst hi
+      rw [key_unique l hn qi qs s hq h]
+  · intro hv
+    refine ⟨⟨3, "en-US", i, s.map Char.toNat⟩, ?_, rfl, rfl, rfl⟩
+    simp only [entriesOf, List.mem_append, List.mem_map, List.mem_filter]
+    refine Or.inr ⟨(i, s), ⟨h, ?_⟩, rfl⟩
+    cases s with
+    | nil => exact absurd rfl hv
+    | cons c cs => rfl
+
+theorem strOfRunes_toNat (s : Str) : strOfRunes (s.map Char.toNat) = s := by
+  induction s with
+  | nil => rfl
+  | cons c cs ih =>
+    simp only [strOfRunes, List.map_cons, List.map_map] at ih ⊢
+    rw [ih, Char.ofNat_toNat]
+
+theorem nameFields_nodup (n : NameRec) : ((nameFields n).map (·.1)).Nodup := by
+  simp only [nameFields, List.map_cons, List.map_nil]
+  decide
 
 /-- name: the table `makeName` builds, written as bytes and decoded, yields the same twelve strings
-under Windows en-US, which is the table `Read` picks -/
+under Windows en-US, which is the table `Read` picks.  The hypothesis is
+`SfntV.Props.C14.NameDomain (sortLangs appleBCP) (sortLangs msBCP) (nameEntries n) 1` unfolded
+(this file does not import `Props.C14`). -/
 theorem name_table (n : NameRec)
-    (hd : SfntV.Props.C14.NameDomain (Names.sortLangs Gen.appleBCP) (Names.sortLangs Gen.msBCP) (nameEntries n) 1)
+    (hd : Names.NameDom Gen.appleBCP Gen.msBCP (Names.sortLangs Gen.appleBCP) (Names.sortLangs Gen.msBCP)
+      (nameEntries n) 1)
     (hsub : n.subfamily ≠ []) :
     ∃ dec, Names.nameDecode (bytesToNats (natsToBytes (Names.nameEncode (nameEntries n) 1))) = some dec ∧
       nameRecOf dec = some n := by
-  sorry
+  obtain ⟨dec, hdec, hget⟩ := Names.name_roundtrip_with Gen.appleBCP Gen.msBCP _ _ (nameEntries n) 1 hd
+  have hg : ∀ i s, (i, s) ∈ nameFields n → strOfRunes (Names.getVal dec 3 "en-US" i) = s := by
+    intro i s hm
+    rw [hget, nameEntries_eq, getVal_entriesOf _ (nameFields_nodup n) i s hm, strOfRunes_toNat]
+  refine ⟨dec, ?_, ?_⟩
+  · unfold Names.nameEncode Names.nameDecode
+    rw [bytesToNats_natsToBytes _ (nameEncodeWith_lt _ _ _ _)]
+    exact hdec
+  · have hany : dec.any (fun e => e.plat == 3 && e.tag == "en-US") = true := by
+      have hne : Names.getVal dec 3 "en-US" 2 ≠ [] := by
+        rw [hget, nameEntries_eq,
+          getVal_entriesOf _ (nameFields_nodup n) 2 n.subfamily (by simp [nameFields])]
+        intro h
+        exact hsub (List.map_eq_nil_iff.1 h)
+      obtain ⟨e, he, h1, h2, _⟩ := Names.getVal_ne_nil_mem dec 3 "en-US" 2 hne
+      exact List.any_eq_true.2 ⟨e, he, by simp [h1, h2]⟩
+    unfold nameRecOf
+    simp only [hany, if_true]
+    rw [hg 0 n.copyright (by simp [nameFields]), hg 1 n.family (by simp [nameFields]),
+      hg 2 n.subfamily (by simp [nameFields]), hg 3 n.identifier (by simp [nameFields]),
+      hg 4 n.fullName (by simp [nameFields]), hg 5 n.version (by simp [nameFields]),
+      hg 6 n.postScriptName (by simp [nameFields]), hg 7 n.trademark (by simp [nameFields]),
+      hg 10 n.description (by simp [nameFields]), hg 13 n.license (by simp [nameFields]),
+      hg 14 n.licenseURL (by simp [nameFields]), hg 19 n.sampleText (by simp [nameFields])]
 
 /-- glyf + loca -/
 theorem glyf_table (gs : Glyf.Glyphs) (h : SfntV.Props.C11.WFGlyphs gs) :
